@@ -11,7 +11,8 @@ PROPERTIES = {
                       "node_attractor_candidates / compute_attractor_candidates return a list that covers every owned attractor (phases 2-3 "
                       "of the candidate computation against the retained-set lemma L7); symbolic_attractor_test returns None iff the pivot "
                       "reaches the avoid set and otherwise exactly the forward closure (least-ness L8), with a termination variant; "
-                      "compute_fixed_point_reduced_STG enumerates ReducedSol up to the limit.",
+                      "compute_fixed_point_reduced_STG enumerates ReducedSol up to the limit; expanded_attractor_seeds() maps exactly the expanded nodes "
+                      "that own attractors to their cached seeds (stubs are left alone).",
         "bounded": "one-to-one correspondence of seeds and attractors over whole diagrams for all complete strategies vs brute-force terminal SCCs "
                    "(the per-node contracts compose over the diagram only through L3/L12, which is not mechanised for block/SCC strategies)",
         "excluded": [],
@@ -34,7 +35,8 @@ PROPERTIES = {
                       "skip_remaining and make_skip_node attach exactly the minimal trap spaces inside the node (SkipOK signature); "
                       "expand_minimal_spaces returns True only when every minimal trap space inside the start node is the space of an expanded, "
                       "successor-free node (its internal completeness assertion is a declared exceptional outcome, not proved impossible); the "
-                      "public wrapper methods pass their arguments on unchanged (delegation contracts).",
+                      "public wrapper methods pass their arguments on unchanged (delegation contracts); minimal_trap_spaces() lists exactly the expanded "
+                      "leaves in ascending order.",
         "bounded": "block / SCC / attractor-seed strategies (their drivers are assumed as abstract outcomes) and all strategies end to end vs "
                    "brute-force minimal trap spaces",
         "excluded": [],
@@ -111,14 +113,17 @@ PROPERTIES = {
     "C11": {
         "decided_by": "Proved: postconditions of intersect / is_subspace / function_eval / percolate_space_strict / percolation_conflicts over the three-valued "
                       "evaluation EvalOn and the strict least fixed point (lemma L1 instances, Lean); percolate_space is a wrapper around AEON's "
-                      "Percolation.percolate_subspace (assumed = Perc).",
-        "bounded": "conformance of AEON percolation with the reference Perc; LDOI / driver comprehensions",
+                      "Percolation.percolate_subspace (assumed = Perc); find_single_node_LDOIs holds, for every non-constant variable and value, "
+                      "exactly the strict percolation of that single assignment, and find_single_drivers returns exactly the assignments whose "
+                      "LDOI together with the assignment itself contains the target.",
+        "bounded": "conformance of AEON percolation with the reference Perc; all functions end to end vs brute-force percolation",
         "excluded": [],
         "trusted": ["AEON Percolation.percolate_subspace computes Perc (assumed; exercised by the bounded conformance sweep)"],
     },
     "C12": {
         "decided_by": "Proved: node_attractor_sets returns the attractor sets of the node's seeds in the same order and caches them; "
-                      "symbolic_attractor_test returns exactly the forward closure of the pivot when it does not reach the avoid set (= the attractor, L8).",
+                      "symbolic_attractor_test returns exactly the forward closure of the pivot when it does not reach the avoid set (= the attractor, L8); "
+                      "expanded_attractor_sets() maps exactly the expanded nodes that own attractors to their cached sets.",
         "bounded": "attractor sets vs brute-force terminal SCCs; symbolic fallback vs default pipeline",
         "excluded": [],
         "trusted": ["compute_attractors_symbolic, symbolic_attractor_fallback, sort_variable_list (assumed contracts)", "AEON vertex-set algebra"],
@@ -126,7 +131,8 @@ PROPERTIES = {
     "C13": {
         "decided_by": "Proved (termination variants discharged): symbolic_attractor_test main loop (lexicographic variant over set cardinalities), "
                       "asp_greedy_retained_set_optimization, the recursion of _update_node_depth (measure nvars - number of fixed variables of the "
-                      "node, decreasing along every edge); percolate_space_strict loops are cut at invariants with finite iteration spaces; "
+                      "node, decreasing along every edge), the fixed-point loop of percolate_space_strict (number of candidate variables), the "
+                      "successor-skipping loops of expand_dfs / expand_minimal_spaces, the simulation loop of compute_attractor_candidates; "
                       "for-loops over finite collections terminate by construction of the iteration protocol.",
         "bounded": "every public operation under a per-case wall-clock limit and a counted work bound for the simulation rounds",
         "excluded": ["termination of clingo / AEON calls"],
